@@ -39,7 +39,7 @@ ASSUMPTIONS = ["time-ordered inputs; virtual clock"]
 
 def budget(tier: str) -> dict[str, Any]:
     if tier == "quick":
-        return {"shards": 8, "cases": 150}
+        return {"shards": 8, "cases": 1500}
     return {"shards": 32, "cases": 3000, "hashseeds": [0, 1, 2, 3]}
 
 
